@@ -79,7 +79,7 @@ fn case<S: Shape>(r: &mut Rng, acc: &mut Acc, index: u64) {
     let kinds = &S::KINDS[..S::N_ANIM];
     let merged = r.chance(1, 4);
     let n_comp = if merged { 1 + r.usize(3) } else { 1 };
-    let specs: Vec<TlSpec> = (0..n_comp).map(|_| gen_tl(r, kinds, &GenOpts { neg_delay: true, ..GenOpts::default() })).collect();
+    let specs: Vec<TlSpec> = (0..n_comp).map(|_| gen_tl(r, kinds, &GenOpts { neg_delay: true, shuffle: true, ..GenOpts::default() })).collect();
     let keyed: Vec<bool> = (0..S::n()).map(|f| f < S::N_ANIM && specs.iter().any(|s| s.defines(f))).collect();
     let mut tl = build::<S>(&specs, merged);
     let n_start = r.usize(5);
